@@ -864,12 +864,13 @@ balances are words) and 256-bit balances in the database. Failures are classifie
 journal / frame / interpreter code: the code store does not know a hash (`code_by_hash`: a database miss), an executable
 precompile panics (C23: MODEXP on a huge length and gas limit does, so unconditional panic-freedom is FALSE), a missing
 oracle answer, a fatal database error; `Resid` — NOT excluded here: interpreter faults (`interpreter: …`,
-`insert outcome: …`, `free_context`, an EOFCREATE action, an internal result flag), `sload` / `sstore` / `selfdestruct`
-on an account that is not loaded, and the fuel. The two environment panics (`already checked`, `initcode_cost`) are
+`insert outcome: …`, `free_context`, an EOFCREATE action, an internal result flag), and the fuel. `sload` / `sstore` /
+`selfdestruct` on a vacant account cannot happen: the request carries the frame's own address, which is loaded. The two environment panics (`already checked`, `initcode_cost`) are
 impossible for EVERY environment (`tv_validateEnv_ne_panic`, `initialTxGas_ne_none`). Everything else —
 every `unwrap` of the journal and of the frame machine: `load_account`, `load_code`, `load_account_delegated`, `touch`,
 `transfer`, `checkpoint_revert`, `inc_nonce`, `create_account_checkpoint`, `set_code`, `tstore`, `account not loaded`,
-`code not cached`, `empty call stack`, `already checked`, `initcode_cost` — is proved impossible. -/
+`code not cached`, `empty call stack`, `already checked`, `initcode_cost`, `sload`, `sstore`, `selfdestruct` — is proved
+impossible. -/
 
 open Revm.Proofs.Frame (Good DbBal) in
 /-- LINK (C07 `hostStep_total` on EvmHost): every `Host` answer on a well-formed world, with the account whose storage is
@@ -894,11 +895,18 @@ theorem evm_frame_functions_total (w : World) (h : WOk w) (cfg : Cfg) (mem : Mem
    fun cp a r h1 h2 h3 => tot_mono (tot_createReturn h cfg cp a r h1 h2 h3) (fun _ hr => hr.1)⟩
 
 /-- LINK (C07 `run_total` on EvmLoop): from a stack whose checkpoints are nested inside the journal of a well-formed
-world (`LI`), `run_the_loop` — for every fuel — ends in a result on a well-formed world, a soft failure or a residual
+world (`LI`) and whose targets are loaded (L3 `EvmInstLoaded.Inv`), `run_the_loop` — for every fuel — ends in a result on a well-formed world, a soft failure or a residual
 failure -/
 theorem evm_runLoop_total (cfg : Cfg) (fuel : Nat) (stack : List JFrame) (w : World) (hne : stack ≠ [])
-    (h : LI stack w) : Tot2 (runLoop journalOps cfg fuel stack w) (fun p => WOk p.2) :=
-  (tot2_runLoop cfg fuel).1 stack w hne h
+    (h : LI stack w) (hi : Revm.Proofs.EvmInstLoaded.Inv stack w) :
+    Tot2 (runLoop journalOps cfg fuel stack w) (fun p => WOk p.2) :=
+  (tot2_runLoop cfg fuel).1 stack w hne h hi
+
+/-- LINK: the `HostOp` an interpreter step emits for SLOAD / SSTORE / SELFDESTRUCT carries the frame's own address
+(with L3's loop invariant `EvmInstLoaded.Inv` — every open frame's target is in the journal — the three journal
+operations never meet a vacant account) -/
+theorem evm_storage_requests_own_address (s : Interp.IState) (op : Interp.HostOp) (k : Interp.HostResp → Interp.Done)
+    (h : Interp.step s = .host op k) : OpT s.target op := step_addr s h
 
 /-- COROLLARY (`transact_total`, the part that is proved): on a well-formed world, for every environment and fork,
 with `2 · gas_limit + 2` units of fuel or more, `Evm.transact` returns a result (rejected or executed) on a well-formed
@@ -928,8 +936,8 @@ theorem transact_no_journal_panic (fuel : Nat) (w : World) (e : Evm.Env) (spec :
 failures. NOT proved: what is missing is (1) C25's per-frame invariant (`init_inv` for the frames `makeFrame` creates —
 code and input within `isize::MAX`, fresh memory context below 2^62 — `step_good` with `RespOk` for every `Host` answer
 and `ChildOk` for every delivered result, `insert_*_outcome` on the memory the child gives back), which removes
-`interpreter: …`, `insert outcome: …`, `free_context`, the EOFCREATE action and the internal result flags; (2) that a
-frame asks `sload` / `sstore` / `selfdestruct` only about its own loaded address. -/
+`interpreter: …`, `insert outcome: …`, `free_context`, the EOFCREATE action and the internal result flags. Items (2)
+(storage requests only for the frame's own loaded address) and (3) (environment) of the earlier list are closed. -/
 def FullStatement_transact_total_link : Prop :=
   ∀ (fuel : Nat) (w : World) (e : Evm.Env) (spec : Nat), WOk w → 2 * e.tx.gasLimit + 2 ≤ fuel →
     (∃ r, Evm.transact fuel w e spec = .ok r) ∨ (∃ err, Evm.transact fuel w e spec = .error err ∧ Soft err)
